@@ -140,6 +140,10 @@ theorem affHash_lawful : Lawful affHashItem := affHashItem_lawful
 /-- the harness's string-concatenation item with shift / overwrite modifiers -/
 theorem strCat_lawful : Lawful strCatItem := strCatItem_lawful
 
+/-- the harness's flip-a-range / count-ones item, lazy with the **zero-sized** modifier `()` (`flipZItem`) and with a
+    one-byte modifier (`flipBItem`): non-idempotent, self-inverse modifier -/
+theorem flip_lawful : Lawful flipZItem ∧ Lawful flipBItem := ⟨flipZItem_lawful, flipBItem_lawful⟩
+
 /-- `Combinator` does not forward `update` to its components (it keeps the trait's default): the product's `update` is the
     componentwise **merge**; for lawful components that observes the same as the components' own `update`. -/
 theorem combinator_update_is_merge {U B : Type} (I : Item T M A) (J : Item U M B) (LI : Lawful I) (LJ : Lawful J)
@@ -220,6 +224,15 @@ example : ∃ s, Seg.fromIter affHashItem [affLeaf 1, affLeaf 2, affLeaf 3] = .o
       [.done, .done, .val (87253, 2248091, 17293), .vals [(5, 131, 1), (11, 131, 1), (7, 131, 1)]] := by
   obtain ⟨s, e, h⟩ := history_refines_from_iter affHashItem affHash_lawful [affLeaf 1, affLeaf 2, affLeaf 3] (by simp)
     [.modify 0 1 (0, 5), .modify 1 2 (2, 1), .ask 0 2, .dbg] (by simp [OpsOK, OpOK])
+  exact ⟨s, e, by rw [h]; decide⟩
+
+/-- a lazy item whose modifier type is `Unit`: two overlapping flips, queries crossing the pending flips -/
+example : ∃ s, Seg.fromSlice flipZItem [⟨1, 1, false⟩, ⟨0, 1, false⟩, ⟨1, 1, false⟩, ⟨1, 1, false⟩, ⟨0, 1, false⟩] = .ok s ∧
+    s.run flipZItem [.modify 0 3 (), .modify 2 4 (), .ask 0 4, .ask 1 2, .dbg] =
+      [.done, .done, .val (4, 5), .val (2, 2), .vals [(0, 1), (1, 1), (1, 1), (1, 1), (1, 1)]] := by
+  obtain ⟨s, e, h⟩ := history_refines_from_slice flipZItem flip_lawful.1
+    [⟨1, 1, false⟩, ⟨0, 1, false⟩, ⟨1, 1, false⟩, ⟨1, 1, false⟩, ⟨0, 1, false⟩] (by simp)
+    [.modify 0 3 (), .modify 2 4 (), .ask 0 4, .ask 1 2, .dbg] (by simp [OpsOK, OpOK])
   exact ⟨s, e, by rw [h]; decide⟩
 
 /-- `new` on a size that is not a power of two, product item -/
